@@ -142,6 +142,17 @@ func runC06(c c06case) (string, string) {
 		if term == 0 {
 			continue
 		}
+		for _, f := range c.Faults {
+			if f.Kind == "restart" && f.At == -(mi+1) {
+				// the process is restarted between two messages (after the previous reply left)
+				if d := boot(); d != "" {
+					return "", d
+				}
+				if t := r.CurrentTerm(); t < lastTermSeen {
+					return ":term-decreased-after-restart", fmt.Sprintf("restarted before message %d: term %d, it had reported %d", mi, t, lastTermSeen)
+				}
+			}
+		}
 		hdr := raft.RPCHeader{ProtocolVersion: 3, ID: []byte(m.Cand), Addr: []byte(m.Cand)}
 		// candidate log relative to the voter's
 		ci, ct := vLastIdx, vLastTerm
@@ -375,6 +386,18 @@ func enumC06(ctx *CheckCtx, shard, of int) *Stats {
 						if stop {
 							return st
 						}
+						// a plain restart between two messages
+						for mi := 1; mi < len(seq); mi++ {
+							c := base
+							c.Faults = []c06fault{{At: -(mi + 1), Kind: "restart"}}
+							st.Execs++
+							st.Transitions += len(seq)
+							if sig, d := runC06(c); d != "" {
+								if report(c, sig, d) {
+									return st
+								}
+							}
+						}
 						if len(st.Samples) < 2 && len(seq) == 2 && seq[0].Kind == "rv" && seq[1].Kind == "rv" && seq[0].TermOff == 1 {
 							b, _ := json.Marshal(base)
 							st.Samples = append(st.Samples, b)
@@ -408,9 +431,9 @@ func init() {
 		Units: func(tier string) []Unit {
 			us := []Unit{{Name: "enum-votes", Enum: enumC06}}
 			if tier == "thorough" {
-				return append(us, scUnits(2, "elect3", "crash3", "majority-restart")...)
+				return append(us, scUnits(2, "elect3", "crash3", "majority-restart", "revote3")...)
 			}
-			return append(us, scUnits(1, "elect3", "crash3", "majority-restart")...)
+			return append(us, scUnits(1, "elect3", "crash3", "majority-restart", "revote3")...)
 		}})
 }
 
